@@ -314,6 +314,10 @@ class Interp:
         self.reset_path([])
         self.pending = []
         self.functions_run = {}  # qualified name -> (file, first line, last line)
+        self.cut_before = {}  # function __qualname__ -> {local name: handler(interp, frame)} run just before the first assignment to that name
+        self.cut_after_attr = {}  # function __qualname__ -> {attribute name: handler(interp, frame, object)} run just after `<name>.<attr> = ...`
+        self.capture = {}  # function __qualname__ -> list of local names whose final values are kept (cut points keyed by name)
+        self.captured = {}
         self.named_tables = {}  # id(ndarray) -> (name, ndarray): entries become named symbols
         self.table_facts = {}  # Symbol -> exact value (definitional facts about named table entries)
         self.base_facts = []  # hypotheses valid on every path (preconditions)
@@ -335,6 +339,10 @@ class Interp:
         self.where = "?"
         self.depth = 0
         self.undo = []
+        self.install_hooks()
+
+    def install_hooks(self):
+        """the symbolic value classes report effects / definedness conditions to the interpreter that is currently running"""
         sym.Hooks.domcheck = self._domcheck
         sym.Hooks.effect = lambda kind, arr, detail=None: self.effect(kind, arr, detail)
         sym.Hooks.defined = lambda cond, what, dom=sp.true: self.defined.append((cond, what, dom, self.where, list(self.pc)))
@@ -441,6 +449,7 @@ class Interp:
             p = Path()
             try:
                 fn, args, kwargs = make_call()
+                self.install_hooks()  # make_call may have run another interpreter (a symbolic set-up run)
                 p.inputs = (args, kwargs)
                 p.result = self.call(fn, list(args), dict(kwargs))
                 p.kind = "return"
@@ -453,7 +462,7 @@ class Interp:
             except Unsupported as un:
                 p.kind = "unsupported"
                 p.exc = un
-                p.where = self.where
+                p.where = getattr(un, "where", None) or self.where
             for obj, name, old in reversed(self.undo):
                 try:
                     if old is _MISSING:
@@ -708,10 +717,15 @@ class Interp:
             if is_gen:
                 fr.yields = []
             try:
-                self.exec_block(node.body, fr)
-                r = None
-            except ReturnEx as re:
-                r = re.v
+                try:
+                    self.exec_block(node.body, fr)
+                    r = None
+                except ReturnEx as re:
+                    r = re.v
+            finally:
+                want = self.capture.get(fr.name)
+                if want:
+                    self.captured.setdefault(fr.name, {}).update({k: fr.locals[k] for k in want if k in fr.locals})
             if is_gen:
                 return iter(fr.yields)
             return r
@@ -728,7 +742,18 @@ class Interp:
             m = getattr(self, "x_" + type(s).__name__, None)
             if m is None:
                 raise Unsupported("statement %s at %s" % (type(s).__name__, self.where))
-            m(s, fr)
+            cb = self.cut_before.get(fr.name)
+            if cb and isinstance(s, ast.Assign) and len(s.targets) == 1 and isinstance(s.targets[0], ast.Name) and s.targets[0].id in cb and s.targets[0].id not in fr.locals:
+                cb[s.targets[0].id](self, fr)
+            try:
+                m(s, fr)
+            except Unsupported as un:
+                if not getattr(un, "where", None):
+                    un.where = "%s:%d" % (os.path.basename(fr.filename), s.lineno)
+                raise
+            ca = self.cut_after_attr.get(fr.name)
+            if ca and isinstance(s, ast.Assign) and len(s.targets) == 1 and isinstance(s.targets[0], ast.Attribute) and s.targets[0].attr in ca and isinstance(s.targets[0].value, ast.Name):
+                ca[s.targets[0].attr](self, fr, fr.locals.get(s.targets[0].value.id))
 
     def x_Expr(self, s, fr):
         self.ev(s.value, fr)
